@@ -78,10 +78,10 @@ pub fn encode_dir(es: &[SEntry]) -> Vec<u8> {
         put_varint(u64::from(e.len), &mut out);
     }
     for (i, e) in es.iter().enumerate() {
-        if i > 0 && e.off == es[i - 1].off + u64::from(es[i - 1].len) {
+        if i > 0 && e.off == es[i - 1].off.wrapping_add(u64::from(es[i - 1].len)) {
             put_varint(0, &mut out);
         } else {
-            put_varint(e.off + 1, &mut out);
+            put_varint(e.off.wrapping_add(1), &mut out);
         }
     }
     out
@@ -107,7 +107,7 @@ pub fn decode_dir(b: &[u8]) -> Result<Vec<SEntry>, String> {
     }
     for i in 0..n {
         let v = get_varint(b, &mut pos)?;
-        es[i].off = if v == 0 && i > 0 { es[i - 1].off + u64::from(es[i - 1].len) } else { v.checked_sub(1).ok_or("first offset 0")? };
+        es[i].off = if v == 0 && i > 0 { es[i - 1].off.checked_add(u64::from(es[i - 1].len)).ok_or("offset overflow")? } else { v.checked_sub(1).ok_or("first offset 0")? };
     }
     Ok(es)
 }
@@ -295,13 +295,13 @@ pub fn parse(file: &[u8], strict: bool) -> Result<View, String> {
         for i in 0..4 {
             for j in i + 1..4 {
                 let (a, b) = (secs[i], secs[j]);
-                if a.2 > 0 && b.2 > 0 && a.1 < b.1 + b.2 && b.1 < a.1 + a.2 {
+                if a.2 > 0 && b.2 > 0 && a.1 < b.1.saturating_add(b.2) && b.1 < a.1.saturating_add(a.2) {
                     return Err(format!("sections {} and {} overlap", a.0, b.0));
                 }
             }
         }
-        if h.root_off + h.root_len > 16384 {
-            return Err(format!("header + root directory end at byte {} > 16384", h.root_off + h.root_len));
+        if h.root_off.saturating_add(h.root_len) > 16384 {
+            return Err(format!("header + root directory end at byte {} > 16384", h.root_off.saturating_add(h.root_len)));
         }
     }
     let meta = if h.meta_len == 0 {
@@ -317,12 +317,12 @@ pub fn parse(file: &[u8], strict: bool) -> Result<View, String> {
     walk(file, &h, h.root_off, h.root_len, 0, &mut v, strict)?;
     // global order
     for w in v.tile_entries.windows(2) {
-        if !(w[0].id < w[1].id && w[0].id + u64::from(w[0].run) <= w[1].id) {
+        if !(w[0].id < w[1].id && w[0].id.saturating_add(u64::from(w[0].run)) <= w[1].id) {
             return Err("tile entries across leaves are not ascending / overlap".into());
         }
     }
     if strict {
-        let addressed: u64 = v.tile_entries.iter().map(|e| u64::from(e.run)).sum();
+        let addressed: u64 = v.tile_entries.iter().fold(0u64, |a, e| a.saturating_add(u64::from(e.run)));
         let mut offs: Vec<u64> = v.tile_entries.iter().map(|e| e.off).collect();
         offs.sort_unstable();
         offs.dedup();
@@ -339,7 +339,7 @@ pub fn parse(file: &[u8], strict: bool) -> Result<View, String> {
             let mut end = 0u64;
             for e in &v.tile_entries {
                 if e.off == end {
-                    end += u64::from(e.len);
+                    end = end.saturating_add(u64::from(e.len));
                 } else if e.off > end {
                     return Err("clustered flag set but tile data is not laid out in tile-id order".into());
                 }
@@ -362,18 +362,18 @@ pub fn lookup(file: &[u8], h: &SHeader, id: u64) -> Result<Option<(u64, u32)>, S
         if e.run > 0 {
             return Ok(if id - e.id < u64::from(e.run) { Some((e.off, e.len)) } else { None });
         }
-        off = h.leaf_off + e.off;
+        off = h.leaf_off.checked_add(e.off).ok_or("leaf offset overflow")?;
         len = u64::from(e.len);
     }
     Err("too deep".into())
 }
 pub fn tile_bytes<'a>(file: &'a [u8], h: &SHeader, ol: (u64, u32)) -> Result<&'a [u8], String> {
-    window(file, h.data_off + ol.0, u64::from(ol.1), "tile")
+    window(file, h.data_off.checked_add(ol.0).ok_or("tile offset overflow")?, u64::from(ol.1), "tile")
 }
 
 /// all addressed tiles (expanded runs); refuses more than `budget` tiles
 pub fn all_tiles(v: &View, budget: u64) -> Result<BTreeMap<u64, (u64, u32)>, String> {
-    let total: u64 = v.tile_entries.iter().map(|e| u64::from(e.run)).sum();
+    let total: u64 = v.tile_entries.iter().fold(0u64, |a, e| a.saturating_add(u64::from(e.run)));
     if total > budget {
         return Err("over budget".into());
     }
